@@ -649,7 +649,7 @@ def mutate(base, mut, src="secsgem"):
     toks, amb = smllex.lex(base)
     a = smllex.analyse(toks)
     kind = mut["kind"]
-    if src == "writer" and (amb or a.must_reject or not a.has_item):
+    if src == "writer" and (amb or a.must_reject or not a.has_item or a.end != len(toks) - 1):
         raise AssertionError(f"harness: the independent writer produced text the reference lexer does not accept: {base!r}")
     if kind == "drop-quote":
         lits = [t for t in toks if t.kind == "lit" and len(t.text) >= 2 and t.text[-1] == t.text[0]]
@@ -657,8 +657,9 @@ def mutate(base, mut, src="secsgem"):
             return None
         t = lits[mut["idx"] % len(lits)]
         return base[: t.end - 1] + base[t.end :], kind, False, False
-    if amb or a.must_reject or not a.has_item:
-        return None  # base text itself is not cleanly lexable valid SML (known string defects): no mutation demand
+    if amb or a.must_reject or not a.has_item or a.end != len(toks) - 1:
+        # secsgem's own text is not one cleanly lexable item (string defects of to_sml): nothing is derived from it
+        return None
     if kind == "del-closer":
         i = a.closers[mut["idx"] % len(a.closers)]
         p = toks[i].pos
@@ -670,13 +671,13 @@ def mutate(base, mut, src="secsgem"):
     else:
         raise ValueError(kind)
     t2, amb2 = smllex.lex(text)
-    if amb2 or not smllex.analyse(t2).must_reject:
+    if src == "writer" and (amb2 or not smllex.analyse(t2).must_reject):
         raise AssertionError(f"harness: mutation {mut} of {base!r} is not rejected by the reference lexer: {text!r}")
     return text, kind, kind == "del-closer", True
 
 
 def edit_tokens(base, edits, dot):
-    """Token-level noise on valid SML; returns the text (re-joined with the original gaps where possible)."""
+    """Token-level noise on valid SML -> list of token texts (joined by the caller)."""
     toks, _ = smllex.lex(base)
     parts = [t.text for t in toks]
     alpha = OPS + OPS + TYPE_TOKENS + NUMBER_TOKENS + UNKNOWN_NAMES[:12] + LITERAL_TOKENS + (["."] * 4 if dot else [])
